@@ -16,7 +16,7 @@
 //! Correspondence: faulty runs are compared with model/Sys.v (sys_check with c_fail_at /
 //! c_fail_from): the model must predict exactly which calls still reach the terminal after a
 //! failure, the io results and the later last_line_count (visible through the next draws).
-use verif_harness::spy::TOp;
+use verif_harness::spy::{Spy, TOp, FAIL_KINDS};
 use verif_harness::sysrun::*;
 use verif_harness::*;
 
@@ -192,14 +192,21 @@ fn all_getters(r: &Running) -> Vec<Option<Getters>> {
 
 struct FaultRun {
     obs: Vec<StepObs>,
+    /// call numbers at which a failure was injected during the history proper
+    injected_at: Vec<u64>,
     /// (class, detail) of the first oracle violation
     bad: Option<(String, String)>,
     injected: u64,
 }
 
 /// one faulty run on fresh objects, checked against the fault-free twin `twin`
-fn run_faulty(case: &Case, twin: &[StepObs]) -> FaultRun {
+fn run_faulty(case: &Case, twin: &[StepObs], kind: std::io::ErrorKind, fail_flush: bool) -> FaultRun {
     let mut r = start(case);
+    {
+        let mut sp = r.spy.0.lock().unwrap();
+        sp.fail_kind = kind;
+        sp.fail_flush = fail_flush;
+    }
     let mut obs = vec![];
     let mut bad: Option<(String, String)> = None;
     let inj = |r: &Running| r.spy.0.lock().unwrap().failures_injected;
@@ -244,6 +251,7 @@ fn run_faulty(case: &Case, twin: &[StepObs]) -> FaultRun {
             }
         }
     }
+    let injected_at = r.spy.0.lock().unwrap().injected_at.clone();
     if bad.is_none() {
         // final round: the same and sibling bars, the MultiProgress, then the drops
         let spy = r.spy.clone();
@@ -273,16 +281,117 @@ fn run_faulty(case: &Case, twin: &[StepObs]) -> FaultRun {
             bad = Some(("io-fault-panic:drop".into(), format!("dropping the objects after the history panicked: {e}")));
         }
     }
-    FaultRun { obs, bad, injected }
+    FaultRun { obs, injected_at, bad, injected }
+}
+
+// ------------------------------------------------------------------ steady ticker vs a terminal that fails for a while
+/// waits (real time) until `f` holds; `ms` nominal, tripled before giving up (a loaded machine must
+/// not produce a false alarm - a dead ticker stays dead however long one waits)
+fn wait_for(ms: u64, mut f: impl FnMut() -> bool) -> bool {
+    let t0 = std::time::Instant::now();
+    while t0.elapsed() < std::time::Duration::from_millis(3 * ms) {
+        if f() {
+            return true;
+        }
+        std::thread::sleep(std::time::Duration::from_millis(1));
+    }
+    f()
+}
+
+/// A bar (standalone or member of a MultiProgress) with enable_steady_tick on a terminal that
+/// fails every call during a window and then recovers.  Not expressible in Sys.v (no ticker in
+/// the model): oracle only.  "later calls keep working": after the recovery frames arrive again
+/// without any manual call, and a position change made then is eventually painted.
+fn ticker_scenarios(s: &mut Session, r: &mut Rng, n: usize) {
+    use indicatif::verif_clock as vc;
+    use indicatif::{MultiProgress, ProgressBar, ProgressDrawTarget};
+    for i in 0..n {
+        let interval = r.range(2, 10);
+        let member = i % 3 == 2;
+        let kind = FAIL_KINDS[i % FAIL_KINDS.len()];
+        let fail_ticks = r.range(1, 4); // failed ticks inside the window
+        let desc = format!(
+            "ticker scenario #{i}: {} bar, enable_steady_tick({interval} ms), terminal fails every call (kind {:?}) for >= {fail_ticks} tick(s), then recovers; then inc(1)",
+            if member { "MultiProgress member" } else { "standalone" },
+            kind
+        );
+        vc::set_clock_ns(vc::ORIGIN_NS);
+        vc::set_auto_step_ns(1_000_000);
+        let spy = Spy::new(40, 20);
+        spy.0.lock().unwrap().fail_kind = kind;
+        let flushes = |spy: &Spy| spy.0.lock().unwrap().ops.iter().filter(|o| **o == TOp::Flush).count();
+        let spy2 = spy.clone();
+        let res = catch(move || -> Option<(&'static str, String)> {
+            let spy = spy2;
+            let mp = MultiProgress::with_draw_target(ProgressDrawTarget::term_like(Box::new(spy.clone())));
+            let pb = if member {
+                mp.add(ProgressBar::with_draw_target(Some(100), ProgressDrawTarget::hidden()))
+            } else {
+                ProgressBar::with_draw_target(Some(100), ProgressDrawTarget::term_like(Box::new(spy.clone())))
+            };
+            pb.set_style(style_of(&[TPart::Lit("P".into()), TPart::Pos, TPart::Lit("E".into())]));
+            pb.enable_steady_tick(std::time::Duration::from_millis(interval));
+            if !wait_for(500, || flushes(&spy) >= 2) {
+                return Some(("ticker-never-drew", "no frame arrived within the waiting time after enable_steady_tick".into()));
+            }
+            // the window: every call fails
+            {
+                let mut st = spy.0.lock().unwrap();
+                st.fail_from = Some(st.calls);
+            }
+            let inj0 = spy.0.lock().unwrap().failures_injected;
+            let seen = wait_for(500, || spy.0.lock().unwrap().failures_injected >= inj0 + fail_ticks);
+            // recovery
+            {
+                let mut st = spy.0.lock().unwrap();
+                st.fail_from = None;
+                st.ops.clear();
+            }
+            if !seen && spy.0.lock().unwrap().failures_injected == inj0 {
+                return Some(("ticker-never-drew", "the ticker made no call during the failure window".into()));
+            }
+            // (fewer failed ticks than waited for: the thread may already be gone - the checks below tell)
+            if !wait_for(500, || flushes(&spy) >= 1) {
+                return Some((
+                    "ticker-dead-after-io-error",
+                    "after the terminal recovered no frame arrived any more without a manual call: the steady tick thread is gone".into(),
+                ));
+            }
+            pb.inc(1);
+            let want = "P1E".to_string();
+            if !wait_for(500, || spy.0.lock().unwrap().ops.iter().any(|o| matches!(o, TOp::Str(t) if *t == want))) {
+                return Some((
+                    "ticker-dead-after-io-error",
+                    "after the terminal recovered inc(1) was never painted (position() = 1, no frame with P1E)".into(),
+                ));
+            }
+            if pb.position() != 1 {
+                return Some(("io-fault-state-differs", format!("position() = {} after inc(1)", pb.position())));
+            }
+            pb.finish_and_clear();
+            drop(pb);
+            drop(mp);
+            None
+        });
+        vc::set_auto_step_ns(0);
+        match res {
+            Err(e) => s.fail("io-fault-panic:ticker", e, desc.clone()),
+            Ok(Some((class, detail))) => s.fail(class, detail, desc.clone()),
+            Ok(None) => {}
+        }
+        s.count("ticker_scenarios");
+        s.oracle_only(desc, true);
+    }
 }
 
 fn main() {
     let a = args();
     let mut s = Session::new(&a, "C18", COQ_HEADER, COQ_CASE_TY, COQ_CHECKER);
     s.shard_size = 150;
-    s.rule = "histories (single bar on a terminal incl. println/suspend/set_tab_width/finish/drop; MultiProgress histories with add/insert/remove, println/suspend/clear of bars and of the MultiProgress, finishes and drops); for each history the fault-free run, then for EVERY k below its number of TermLike calls (sampled above the cap) the runs 'only call k fails' and 'all calls from k on fail' on fresh objects; oracle: no panic, getters equal the fault-free twin after every op, mp.println/clear Err iff one of their own calls failed, final round of calls on every bar and the MultiProgress works, drops do not panic; a sample of the faulty runs is compared with the model (sys_check with fail_at/fail_from); non-trivial = at least one failure was injected; distinct = distinct case text; plus the static audit of unwrap/expect/panic sites".into();
+    s.rule = "histories (single bar on a terminal incl. println/suspend/set_tab_width/finish/drop; MultiProgress histories with add/insert/remove, println/suspend/clear of bars and of the MultiProgress, finishes and drops); for each history the fault-free run, then for EVERY k below its number of TermLike calls (sampled above the cap) the runs 'only call k fails' and 'all calls from k on fail' on fresh objects; oracle: no panic, getters equal the fault-free twin after every op, mp.println/clear Err iff one of their own calls failed, final round of calls on every bar and the MultiProgress works, drops do not panic; a sample of the faulty runs is compared with the model (sys_check with fail_at/fail_from); the injected io::ErrorKind rotates through Interrupted/WouldBlock/BrokenPipe/Other/TimedOut/UnexpectedEof (recorded in the case text); per history and kind one run in which EVERY flush fails (>= 3 consecutive failing flushes); 36 real-time steady-ticker scenarios (terminal fails for a window, then recovers: frames must arrive again and a later inc must be painted); non-trivial = at least one failure was injected; distinct = distinct case text; plus the static audit of unwrap/expect/panic sites".into();
     audit_panic_sites(&mut s);
     let mut r = Rng::new(a.seed);
+    ticker_scenarios(&mut s, &mut r.fork(), if a.thorough { 120 } else { 36 });
     let (n_hist, cap_k, corr_per_hist) = if a.thorough { (700, 400, 14) } else if a.extended { (500, 200, 10) } else { (110, 120, 12) };
     for i in 0..n_hist {
         let case = if i % 2 == 0 { gen_single(&mut r) } else { gen_multi(&mut r) };
@@ -302,7 +411,27 @@ fn main() {
         for _ in 0..((total.saturating_sub(cap_k)).min(40)) {
             ks.push(r.range(cap_k, total - 1));
         }
-        let mut corr: Vec<(Case, Vec<StepObs>, bool)> = vec![];
+        let mut corr: Vec<(Case, Vec<StepObs>, bool, String)> = vec![];
+        // every flush() of the history fails, once per error kind (>= 3 consecutive failing
+        // flushes whenever the history draws three times); replayable as fail_at = the call numbers
+        for (j, kind) in FAIL_KINDS.iter().enumerate() {
+            let fr = run_faulty(&case, &twin, *kind, true);
+            s.count("faulty_runs:every_flush_fails");
+            s.count(&format!("error_kind:{:?}", kind));
+            s.count_n("failures_injected", fr.injected);
+            let mut c = case.clone();
+            c.fail_at = fr.injected_at.clone();
+            let desc = format!("kind={:?} every-flush-fails {}", kind, describe(&c));
+            if let Some((class, detail)) = fr.bad {
+                s.fail(&class, format!("[error kind {:?}] {detail}", kind), desc.clone());
+            }
+            if j == i % 6 {
+                s.case(coq_case(&c, &fr.obs), desc, fr.injected > 0);
+            } else {
+                s.oracle_only(desc, fr.injected > 0);
+            }
+        }
+        let mut run_no = i;
         for &k in &ks {
             for mode in 0..2 {
                 let mut c = case.clone();
@@ -314,17 +443,20 @@ fn main() {
                 } else {
                     c.fail_from = Some(k);
                 }
-                let fr = run_faulty(&c, &twin);
+                run_no += 1;
+                let kind = FAIL_KINDS[run_no % FAIL_KINDS.len()];
+                let fr = run_faulty(&c, &twin, kind, false);
                 s.count(if mode == 0 { "faulty_runs:fail_at" } else { "faulty_runs:fail_from" });
+                s.count(&format!("error_kind:{:?}", kind));
                 s.count_n("failures_injected", fr.injected);
-                let desc = describe(&c);
+                let desc = format!("kind={:?} {}", kind, describe(&c));
                 if let Some((class, detail)) = fr.bad {
-                    s.fail(&class, detail, desc.clone());
+                    s.fail(&class, format!("[error kind {:?}] {detail}", kind), desc.clone());
                 }
                 let rep = fr.obs.iter().zip(c.ops.iter()).filter(|(o, (_, op))| !o.ok && matches!(op, Op::MPrintln(_) | Op::MClear)).count();
                 s.count_n("io_errors_reported", rep as u64);
                 if corr.len() < corr_per_hist * 4 {
-                    corr.push((c, fr.obs, fr.injected > 0));
+                    corr.push((c, fr.obs, fr.injected > 0, desc));
                 } else {
                     s.oracle_only(desc, fr.injected > 0);
                 }
@@ -332,12 +464,11 @@ fn main() {
         }
         // correspondence sample: spread over k
         let step = (corr.len() / corr_per_hist).max(1);
-        for (j, (c, o, nt)) in corr.into_iter().enumerate() {
+        for (j, (c, o, nt, d)) in corr.into_iter().enumerate() {
             if j % step == 0 {
-                let d = describe(&c);
                 s.case(coq_case(&c, &o), d, nt);
             } else {
-                s.oracle_only(describe(&c), nt);
+                s.oracle_only(d, nt);
             }
         }
         let _ = TOp::Flush;
